@@ -109,8 +109,22 @@ fn main() {
         println!("{{\"outcome\":\"{}\",\"message\":\"{}\"}}", outcome, esc(&msg));
         return;
     }
-    if args.len() == 5 && args[1] == "--scss-fail-lookup" {
+    if args.len() == 3 && args[1] == "--scss-threads" {
+        // compile the same stylesheet on the main thread and on two further threads, one after the other;
+        // prints the three outputs separated by U+0001
+        let src = args[2].clone();
+        let one = |s: String| rsass::compile_scss(s.as_bytes(), Default::default()).map(|v| String::from_utf8_lossy(&v).into_owned()).unwrap_or_else(|e| format!("<error {e:?}>"));
+        let a = one(src.clone());
+        let s1 = src.clone();
+        let b = std::thread::spawn(move || one(s1)).join().unwrap_or_else(|_| "<panic>".into());
+        let s2 = src.clone();
+        let c = std::thread::spawn(move || one(s2)).join().unwrap_or_else(|_| "<panic>".into());
+        println!("{{\"outcome\":\"ok\",\"message\":\"{}\"}}", esc(&format!("{a}\u{1}{b}\u{1}{c}")));
+        return;
+    }
+    if args.len() == 5 && (args[1] == "--scss-fail-lookup" || args[1] == "--scss-fail-read") {
         // compile <dir>/<entry> through a loader over <dir> whose k-th find_file call fails
+        // (--scss-fail-read: the k-th file that is *found* fails when it is read)
         use rsass::input::{Context, LoadError, Loader, SourceFile, SourceName};
         use std::cell::Cell;
         #[derive(Debug)]
@@ -118,9 +132,20 @@ fn main() {
             dir: std::path::PathBuf,
             calls: Cell<usize>,
             fail_at: usize,
+            found: Cell<usize>,
+            fail_read_at: usize,
+        }
+        struct FlakyFile(std::fs::File, bool);
+        impl std::io::Read for FlakyFile {
+            fn read(&mut self, buf: &mut [u8]) -> std::io::Result<usize> {
+                if self.1 {
+                    return Err(std::io::Error::new(std::io::ErrorKind::PermissionDenied, "injected read failure"));
+                }
+                self.0.read(buf)
+            }
         }
         impl Loader for Flaky {
-            type File = std::fs::File;
+            type File = FlakyFile;
             fn find_file(&self, url: &str) -> Result<Option<Self::File>, LoadError> {
                 let n = self.calls.get();
                 self.calls.set(n + 1);
@@ -132,7 +157,11 @@ fn main() {
                 }
                 let full = self.dir.join(url);
                 if full.is_file() {
-                    std::fs::File::open(&full).map(Some).map_err(|e| LoadError::Input(url.to_string(), e))
+                    let k = self.found.get();
+                    self.found.set(k + 1);
+                    std::fs::File::open(&full)
+                        .map(|f| Some(FlakyFile(f, k == self.fail_read_at)))
+                        .map_err(|e| LoadError::Input(url.to_string(), e))
                 } else {
                     Ok(None)
                 }
@@ -140,11 +169,12 @@ fn main() {
         }
         let dir = std::path::PathBuf::from(&args[2]);
         let entry = args[3].clone();
-        let fail_at: usize = args[4].parse().unwrap_or(usize::MAX);
+        let k: usize = args[4].parse().unwrap_or(usize::MAX);
+        let (fail_at, fail_read_at) = if args[1] == "--scss-fail-read" { (usize::MAX, k) } else { (k, usize::MAX) };
         panic::set_hook(Box::new(|_| {}));
         let res = panic::catch_unwind(move || {
             let data = std::fs::read(dir.join(&entry)).map_err(|e| format!("{e:?}"))?;
-            let loader = Flaky { dir, calls: Cell::new(0), fail_at };
+            let loader = Flaky { dir, calls: Cell::new(0), fail_at, found: Cell::new(0), fail_read_at };
             let file = SourceFile::scss_bytes(data, SourceName::root(entry));
             let ctx = Context::for_loader(loader);
             ctx.transform(file)
